@@ -26,6 +26,8 @@
 (*            c |-> cond, d |-> var]                                       *)
 (*         | [t |-> "draw", v, dist |-> dist, c |-> cond, d |-> var]       *)
 (*         | [t |-> "if", cs |-> <<cond>>, bs |-> <<stmts>>, el |-> stmts] *)
+(*         | [t |-> "func", v, arg, argc, tab, miss, c, d]  v = f(argument) *)
+(*            with f given as a finite table (see RunStmt)                 *)
 (*         | [t |-> "simul", items |-> <<assign or draw>>]  simultaneous    *)
 (*            assignment: every right-hand side reads the store as it was  *)
 (*            before the statement                                         *)
@@ -123,6 +125,16 @@ RunStmt(stmt, o) ==
             LET j == FirstTrue(stmt.cs, o.s, 1)
             IN  IF j > 0 THEN RunStmts(stmt.bs[j], 1, <<o>>) ELSE RunStmts(stmt.el, 1, <<o>>)
       [] stmt.t = "simul" -> SimulFrom(stmt.items, 1, o.s, <<o>>)
+      [] stmt.t = "func" ->
+            \* v = Sin | Cos | Exp (argument): the function is given by a table of (argument, value) pairs supplied
+            \* with the program (rational approximations of the transcendental values); an argument outside the
+            \* table maps to the table's `miss' value, and a `supp' claim on the argument keeps that from going
+            \* unnoticed
+            IF Holds(stmt.c, o.s)
+            THEN LET a == IF stmt.arg = 0 THEN stmt.argc ELSE o.s[stmt.arg]
+                     hit == {j \in 1..Len(stmt.tab) : stmt.tab[j].x = a}
+                 IN  << Upd(o, stmt.v, IF hit = {} THEN stmt.miss ELSE stmt.tab[CHOOSE j \in hit : TRUE].y, SOne) >>
+            ELSE << Upd(o, stmt.v, o.s[stmt.d], SOne) >>
 
 FlatOuts(stmt, outs, j) ==
     IF j > Len(outs) THEN <<>> ELSE RunStmt(stmt, outs[j]) \o FlatOuts(stmt, outs, j + 1)
